@@ -3,7 +3,7 @@
 import json, subprocess, sys
 
 ENV = "GOFLAGS=-mod=mod GOPROXY=off GOSUMDB=off GOTOOLCHAIN=local GOWORK=off"
-TRUST = ("Trusted base: Go type checker (go 1.23.5), golang.org/x/tools v0.29.0 (go/packages, go/ssa, go/cfg), "
+TRUST = ("Trusted base: Go type checker (go 1.23.5), golang.org/x/tools v0.29.0 (go/packages, go/cfg, typeutil), "
          "my port of encoding/json field resolution, documented semantics of encoding/json, encoding/gob, swag, jsonpointer, "
          "jsonreference, and the meta-schemas shipped in /repo/schemas as vocabulary oracle. Decides structural necessary "
          "conditions only; the value-level clauses listed under not_covered in the evidence file are not decided.")
@@ -49,7 +49,7 @@ manifest = {
         "name": "specvet",
         "path": "/verif/specvet",
         "serves_properties": sorted(CLAIMED),
-        "kind_free_text": "repository-specific static analyser (go/packages + go/types + go/ast access paths + go/cfg + go/ssa); never executes the package",
+        "kind_free_text": "repository-specific static analyser (go/packages + go/types + go/ast access paths + go/cfg); never executes the package",
     }],
     "checks": checks,
     "notes": "Static analysis only. Every check loads and type-checks /repo's working tree on every run. Exit 0 = all obligations discharged (KNOWN-FINDING lines allowed); exit 1 + VIOLATION line = an unlisted violated or undecided obligation or a rule whose anchors fell below its floor; see DESIGN.md.",
